@@ -40,53 +40,3 @@ structure Sim (W : Nat) (t : Table K V) (s : TSpec K V) : Prop where
   dur_eq : ∀ k m, s.maxEver ≤ m + W → (disk t k).valAt m = (s.dur k).valAt m
 
 end Brc20.Table
-
-namespace Brc20.Table
-variable {K V : Type} [DecidableEq K] [DecidableEq V]
-open Hist
-
-/-! ## Statements to prove (the refinement) -/
-
-theorem sim_init (W : Nat) : Sim W (Table.empty : Table K V) TSpec.init := by
-  sorry
-
-/-- Point reads are those of the plain map. -/
-theorem sim_latest {W : Nat} {t : Table K V} {s : TSpec K V} (h : Sim W t s) (k : K) :
-    t.latest k = s.read k := by
-  sorry
-
-/-- One legal API call: the model table does not panic and stays in simulation with the plain map. -/
-theorem step_sim {W : Nat} {t : Table K V} {s : TSpec K V} (h : Sim W t s) (op : TOp K V)
-    (hl : TSpec.legal W s op) : ∃ t', t.step W op = some t' ∧ Sim W t' (s.step op) := by
-  sorry
-
-/-- Any legal history, of any length. -/
-theorem run_sim {W : Nat} {t : Table K V} {s : TSpec K V} (h : Sim W t s) (ops : List (TOp K V))
-    (hl : TSpec.legalRun W s ops) : ∃ t', t.run W ops = some t' ∧ Sim W t' (s.run ops) := by
-  sorry
-
-/-- Rolling back inside the window restores, for every key, the value it had at the end of block `n`. -/
-theorem rollback_in_window {W : Nat} {t : Table K V} {s : TSpec K V} (h : Sim W t s) (n : Nat)
-    (hw : s.maxEver ≤ n + W) (hn : n ≤ s.maxEver) :
-    ∃ t', t.reorg W n = some t' ∧ ∀ k, t'.latest k = s.readAt k n := by
-  sorry
-
-/-- After a commit, what is on disk is what was readable: a reopened table reads the same. -/
-theorem commit_then_reopen_reads {W : Nat} {t : Table K V} {s : TSpec K V} (h : Sim W t s) (b : Nat) (k : K) :
-    ((t.commit W b).reopen).latest k = t.latest k := by
-  sorry
-
-/-- Discarding the cache (or reopening) returns exactly to the state of the last commit. -/
-theorem clear_reads_durable {W : Nat} {t : Table K V} {s : TSpec K V} (h : Sim W t s) (k : K) :
-    (t.clear).latest k = (s.dur k).latest := by
-  sorry
-
-/-- No key keeps more than `W + 1` versions, in memory or on disk. -/
-def VersionsLe (W : Nat) (t : Table K V) : Prop :=
-  (∀ k h, t.cache.get? k = some h → h.length ≤ W + 1) ∧ (∀ k h, t.cdb.get? k = some h → h.length ≤ W + 1)
-
-theorem versions_le_step {W : Nat} {t : Table K V} {s : TSpec K V} (h : Sim W t s) (hv : VersionsLe W t)
-    (op : TOp K V) (hl : TSpec.legal W s op) : ∀ t', t.step W op = some t' → VersionsLe W t' := by
-  sorry
-
-end Brc20.Table
